@@ -400,6 +400,10 @@ func (x *Exec) loopHead(fr *Frame, li *loopInfo, pre *State) (*State, error) {
 	eff := x.effectsOfBlocks(fr, li.body)
 	h := pre.Clone()
 	var h2 *State
+	loopAlloc := x.u.Fresh("alloc", SInt)
+	x.u.Assume(Ge(loopAlloc, pre.Alloc))
+	x.u.havocAlloc = loopAlloc
+	defer func() { x.u.havocAlloc = Term{} }()
 	if eff.all {
 		keep := map[string]Term{}
 		for k, v := range h.Heap {
@@ -410,11 +414,11 @@ func (x *Exec) loopHead(fr *Frame, li *loopInfo, pre *State) (*State, error) {
 		}
 		h.Heap = keep
 		h.Epoch = x.nextEpoch()
+		h.Mix = nil
 		h.Ghost = map[string]Term{}
 		// the allocation counter only grows
-		na := x.u.Fresh("alloc", SInt)
-		x.u.Assume(Ge(na, pre.Alloc))
-		h.Alloc = na
+		h.Alloc = loopAlloc
+		x.u.epochAlloc[h.Epoch] = loopAlloc
 	} else {
 		var names []string
 		for c := range eff.comps {
@@ -429,9 +433,7 @@ func (x *Exec) loopHead(fr *Frame, li *loopInfo, pre *State) (*State, error) {
 				h.Ghost[k] = x.u.Fresh("ghost$"+k+".havoc", t.So)
 			}
 		}
-		na := x.u.Fresh("alloc", SInt)
-		x.u.Assume(Ge(na, pre.Alloc))
-		h.Alloc = na
+		h.Alloc = loopAlloc
 	}
 	for k := range eff.locals {
 		if v, ok := h.Vars[k]; ok {
